@@ -223,3 +223,15 @@ pub fn bigrat_op(op: &str, a: &RawRat, b: &RawRat) -> Out {
 		})
 	})())
 }
+
+/// The messages of the three errors C01 admits, in the order DivideByZero,
+/// ZeroToThePowerOfZero, ExponentTooLarge (so that a check comparing error
+/// texts at the public API does not depend on their wording).
+#[must_use]
+pub fn admissible_error_messages() -> [String; 3] {
+	[
+		FendError::DivideByZero.to_string(),
+		FendError::ZeroToThePowerOfZero.to_string(),
+		FendError::ExponentTooLarge.to_string(),
+	]
+}
